@@ -23,6 +23,18 @@ var c01FileCases = []faCase{
 		patch: "@@\nvar x, y identifier\n@@\n-x.Lock()\n-y.Lock()\n-transfer(x, y)\n+transferLocked(x, y)\n",
 		minus: "package p\n\nfunc f() {\n\ta.Lock()\n\t⟦«x:b».Lock()\n\t«y:c».Lock()\n\ttransfer(«x:b», «y:c»)⟧\n\tdone()\n}\n\nfunc g() {\n\tfor {\n\t\tp.Lock()\n\t\tq.Lock()\n\t\t⟦«x:r».Lock()\n\t\t«y:s».Lock()\n\t\ttransfer(«x:r», «y:s»)⟧\n\t}\n}\n",
 		plus:  "package p\n\nfunc f() {\n\ta.Lock()\n\t⟦transferLocked(«x», «y»)⟧\n\tdone()\n}\n\nfunc g() {\n\tfor {\n\t\tp.Lock()\n\t\tq.Lock()\n\t\t⟦transferLocked(«x», «y»)⟧\n\t}\n}\n"},
+	{name: "stmt-in-toplevel-funclit",
+		patch: "@@\nvar x identifier\n@@\n-x.Lock()\n-defer x.Unlock()\n+guard(x)\n",
+		minus: "package p\n\nvar handler = func() {\n\t⟦«x:mu».Lock()\n\tdefer «x:mu».Unlock()⟧\n}\n\nvar table = map[string]func(){\n\t\"a\": func() {\n\t\tpre()\n\t\t⟦«x:rw».Lock()\n\t\tdefer «x:rw».Unlock()⟧\n\t},\n}\n\nfunc f() {\n\t⟦«x:zz».Lock()\n\tdefer «x:zz».Unlock()⟧\n}\n",
+		plus:  "package p\n\nvar handler = func() {\n\t⟦guard(«x»)⟧\n}\n\nvar table = map[string]func(){\n\t\"a\": func() {\n\t\tpre()\n\t\t⟦guard(«x»)⟧\n\t},\n}\n\nfunc f() {\n\t⟦guard(«x»)⟧\n}\n"},
+	{name: "paren-fillers",
+		patch: "@@\nvar x expression\n@@\n-x.Len()\n+x.Size()\n",
+		minus: "package p\n\nfunc f() int {\n\tif ⟦«x:(T{})».Len()⟧ == 0 {\n\t\treturn ⟦«x:(c)».Len()⟧\n\t}\n\treturn ⟦«x:(a + b)».Len()⟧ + ⟦«x:((d))».Len()⟧\n}\n",
+		plus:  "package p\n\nfunc f() int {\n\tif ⟦«x».Size()⟧ == 0 {\n\t\treturn ⟦«x».Size()⟧\n\t}\n\treturn ⟦«x».Size()⟧ + ⟦«x».Size()⟧\n}\n"},
+	{name: "many-elisions",
+		patch: "@@\n@@\n f(\n   g01(...),\n       g02(...),\n  g03(...),\n     g04(...),\n   g05(...),\n         g06(...),\n  g07(...),\n    g08(...),\n   g09(...),\n      g10(...),\n  g11(...),\n     g12(...),\n   g13(...),\n        g14(...),\n-  old,\n+  renewed,\n )\n",
+		minus: "package p\n\nvar v = ⟦f(g01(«d1:1»), g02(«d2:a, b»), g03(), g04(«d3:c»), g05(«d4:2, 3»), g06(«d5:e»), g07(«d6:4»), g08(), g09(«d7:h, 5»), g10(«d8:i»), g11(«d9:6»), g12(«da:j»), g13(«db:7, k»), g14(«dc:8»), old)⟧\n",
+		plus:  "package p\n\nvar v = ⟦f(g01(«d1»), g02(«d2»), g03(), g04(«d3»), g05(«d4»), g06(«d5»), g07(«d6»), g08(), g09(«d7»), g10(«d8»), g11(«d9»), g12(«da»), g13(«db»), g14(«dc»), renewed)⟧\n"},
 	{name: "stmt-in-case-and-select",
 		patch: "@@\nvar x identifier\n@@\n-x.Lock()\n+lock(x)\n",
 		minus: "package p\n\nfunc f(c chan int) {\n\tswitch {\n\tcase true:\n\t\t⟦«x:mu».Lock()⟧\n\t}\n\tselect {\n\tcase <-c:\n\t\tpre()\n\t\t⟦«x:rw».Lock()⟧\n\t}\n}\n",
